@@ -14,11 +14,16 @@ PROP = dict(
     class_names={0: "rcb2", 1: "rcb3", 2: "rib2", 3: "rib3", 4: "hilbert2", 5: "hilbert3", 6: "zcurve2", 7: "zcurve3",
                  8: "kmeans2", 9: "multijagged2", 10: "dual"},
     trusted_base=[
-        "axioms: none",
+        "axioms: none (every theorem of Properties/C06.v is closed under the global context)",
         "rayon: fold/reduce/collect preserve index order and call the closures on the pieces of SOME recursive split of the index "
         "range (the split-tree model of Lib/Rayon.v); par_sort_unstable takes no timing-dependent decision",
-        "the theorems are about the parallel skeletons (and, where available, the algorithm models built from them), for every "
-        "split tree; what real work stealing does over repeated runs is only SAMPLED by this check (partial on 'schedules')",
+        "the theorems are about the parallel skeletons and about the algorithm models of C18 (dual graph), C16 (part loads), "
+        "C11 (MultiJagged), C04 (Rcb's split fold), C09 (ZCurve, HilbertCurve), for every split tree / write order / sort "
+        "oracle; what real work stealing does over repeated runs is only SAMPLED by this check (partial on 'schedules')",
+        "NOT proved: `forall s1 s2, alg s1 x = alg s2 x` for the whole of Rcb, Rib, HilbertCurve, ZCurve, KMeans, MultiJagged "
+        "(the _partial theorems of Properties/C06.v say which construct of each they cover); Rcb's weights are modelled as "
+        "exact integers; MultiJagged's block independence is proved at exact arithmetic for one call of "
+        "compute_split_positions; ZCurve's quadrant function and Hilbert's curve indices are data",
         "the harness decides the exactness premise (integer inputs; power-of-two point count for the OBB-based algorithms)",
     ],
     assumptions=[
@@ -31,11 +36,18 @@ PROP = dict(
 MANIFEST = dict(
     text="Schedule independence proved for every split tree of the parallel skeletons the partitioners are made of (fold+reduce "
          "with a homomorphic fold, exact integer sums, per-part histograms, min/max, writes to pairwise distinct indices), in "
-         "Lib/Rayon.v; each case of the harness runs the real entry point under six pool sizes twice and the exact all-equal "
+         "Lib/Rayon.v, and at algorithm level (collected in Properties/C06.v, glue in Proofs/C06Collect.v): the tools' dual "
+         "graph is the same for any two orders of its row writes and copies; compute_parts_load / imbalance / sum() for any two "
+         "split trees; MultiJagged: any two leaf orders give the same partition up to renaming, block decomposition of the scan "
+         "irrelevant at exact arithmetic (partial); Rcb/Rib: for any two split trees the split fold returns the exact left "
+         "weight and a pivot of minimal coordinate on the right, so the pivot value and the split sets do not depend on the tree "
+         "(partial: not lifted to the whole recursion); ZCurve: every sort oracle yields runs of the same cell codes (partial); "
+         "HilbertCurve: ids total and monotone for every split vector (partial). Each case of the harness runs the real entry point under six pool sizes twice and the exact all-equal "
          "checker (up to renaming for MultiJagged) compares the twelve outputs. Pool-size dependence of the OBB-based algorithms on "
          "inputs whose point count is not a power of two is a known finding (inexact inertia sums).",
     design_ref="DESIGN.md §7 C06",
     note="PARTIAL by construction: theorems quantify over split trees of the model; real work-stealing schedules are sampled "
-         "(12 runs per case). Algorithm-level corollaries are only as complete as the algorithm models.",
+         "(12 runs per case). Whole-algorithm equality `alg s1 x = alg s2 x` is proved only for the dual graph and the load / "
+         "imbalance functions; for the partitioners the collected theorems are partial (named _partial).",
     technique="Coq proof (split-tree skeleton theorems) + all-equal checker on implementation runs across pool sizes and repetitions",
 )
